@@ -43,6 +43,9 @@ def runs(tier):
                                                 OpsAt=[{'Concatenate'}, INPLACE], KindPairs=real)))
     out.append(dict(name='lin2', constants=dict(base, MaxD=2, Scenarios={'lin'}, OpsAt=[{'Residual', 'MatMul'}, INPLACE],
                                                 KindPairs=real)))
+    # documented error paths: an inadmissible call raises and changes no live object
+    out.append(dict(name='rej', constants=dict(base, MaxD=2, DimsR={2}, DimsC={1, 2}, RanksS={2}, Scenarios={'pair', 'openpair'}, MaxDepth=1,
+                                               OpsAt=[{'Reject'}], KindPairs=real)))
     # two producers then one in-place call (two live results of the same operand)
     out.append(dict(name='u3', constants=dict(base, MaxD=2 if q else 3, MaxDepth=3, Scenarios={'single'},
                                               OpsAt=[{'SMul', 'Copy', 'Transpose', 'Conj', 'RankTranspose', 'Diag'},
